@@ -1054,6 +1054,15 @@ func extractC03(c *Ctx) error {
 	}
 	c.P("")
 	c.Info("ante_loop_carried", carriedNames)
+	maxDepth, err := c03Flatten(c)
+	if err != nil {
+		return err
+	}
+	c.P("(** flattenMsgs (x/paloma/ante.go): recursive, refuses a transaction that nests authz.MsgExec deeper")
+	c.P("    than maxNestedMsgDepth BEFORE looking at that level, never leaves a level unvisited (shape checked). *)")
+	c.P("Definition max_nested_depth : nat := %d.", maxDepth)
+	c.P("")
+	c.Info("max_nested_depth", maxDepth)
 	c.P("(** One entry per rpc of every Msg service (%d handlers, %d string-like request fields reviewed). *)", nHandlers, nLeaves)
 	c.P("Definition specs : list msgspec := [")
 	c.P("%s", strings.Join(specLines, ";\n"))
@@ -1212,4 +1221,89 @@ func c03AnteLoop(c *Ctx) (bool, []string, error) {
 	}
 	names := SortedSet(used)
 	return len(names) > 0, names, nil
+}
+
+// c03Flatten: the only shape of flattenMsgs the model (Auth/Ante.v, flat) knows: a function
+// (msgs, depth) whose FIRST statement refuses `depth > maxNestedMsgDepth`, followed by one loop over
+// msgs that keeps every message and, for an *authz.MsgExec, recurses into ALL its messages with
+// depth+1, returning the error; called with depth 0 on tx.GetMsgs(). Anything else — in particular
+// a walk that can stop with levels pending — is an error.
+func c03Flatten(c *Ctx) (int, error) {
+	f, err := c.Parse("x/paloma/ante.go")
+	if err != nil {
+		return 0, err
+	}
+	fd := FindFunc(f, "", "flattenMsgs")
+	bad := func(why string) (int, error) {
+		return 0, fmt.Errorf("x/paloma/ante.go flattenMsgs: %s (shape not understood: the model of nested transactions knows the recursive walk that refuses beyond maxNestedMsgDepth only)", why)
+	}
+	if fd == nil || fd.Body == nil {
+		return bad("not found")
+	}
+	var params []string
+	for _, p := range fd.Type.Params.List {
+		for _, n := range p.Names {
+			params = append(params, n.Name)
+		}
+	}
+	if len(params) != 2 {
+		return bad("expected parameters (msgs, depth)")
+	}
+	msgsP, depthP := params[0], params[1]
+	lit, ok := ConstValue(c, []*ast.File{f}, "maxNestedMsgDepth")
+	if !ok {
+		return bad("constant maxNestedMsgDepth not found")
+	}
+	var max int
+	if _, err := fmt.Sscanf(lit, "%d", &max); err != nil || max < 1 || max > 64 {
+		return bad("maxNestedMsgDepth is not a small positive literal")
+	}
+	if len(fd.Body.List) < 3 {
+		return bad("body too short")
+	}
+	is, ok := fd.Body.List[0].(*ast.IfStmt)
+	if !ok || c.Src(is.Cond) != depthP+" > maxNestedMsgDepth" || !c03ReturnsError(is.Body) {
+		return bad("the first statement is not `if depth > maxNestedMsgDepth { return error }`")
+	}
+	var loop *ast.RangeStmt
+	nLoops := 0
+	ast.Inspect(fd.Body, func(n ast.Node) bool {
+		switch x := n.(type) {
+		case *ast.RangeStmt:
+			nLoops++
+			loop = x
+		case *ast.ForStmt:
+			nLoops += 2
+		}
+		return true
+	})
+	if nLoops != 1 || c.Src(loop.X) != msgsP {
+		return bad("expected exactly one `for _, msg := range msgs` loop")
+	}
+	rec := Calls(loop.Body, "flattenMsgs")
+	if len(rec) != 1 || len(rec[0].Args) != 2 || c.Src(rec[0].Args[1]) != depthP+" + 1" && c.Src(rec[0].Args[1]) != depthP+"+1" {
+		return bad("expected one recursive call flattenMsgs(inner, depth+1) in the loop")
+	}
+	gm := Calls(loop.Body, "GetMessages")
+	if len(gm) != 1 || c.Src(rec[0].Args[0]) != "inner" {
+		return bad("the recursion is not over exec.GetMessages()")
+	}
+	if _, _, chk := c03ErrChecked(loop.Body, "flattenMsgs"); !chk {
+		return bad("the error of the recursive call is not returned")
+	}
+	for _, st := range loop.Body.List {
+		if b, ok := st.(*ast.BranchStmt); ok && b.Tok == token.BREAK {
+			return bad("break in the loop")
+		}
+	}
+	// call site: depth 0 on the transaction's messages
+	ah := FindFunc(f, "VerifyAuthorisedSignatureDecorator", "AnteHandle")
+	if ah == nil {
+		return bad("AnteHandle not found")
+	}
+	cs := Calls(ah.Body, "flattenMsgs")
+	if len(cs) != 1 || len(cs[0].Args) != 2 || c.Src(cs[0].Args[0]) != "tx.GetMsgs()" || c.Src(cs[0].Args[1]) != "0" {
+		return bad("AnteHandle does not call flattenMsgs(tx.GetMsgs(), 0)")
+	}
+	return max, nil
 }
